@@ -89,6 +89,24 @@ def concretize(ex, o, model, contract, cls):
         if cname in table.classes:
             for c in reversed(table.classes[cname].mro):
                 out.update(specs.shapes.get(c, {}))
+            # fields that no contract declares (introduced by a change of the code): typed from the source, so that the
+            # object rebuilt for the native replay has them too
+            import ast as _ast
+            for c in table.classes[cname].mro:
+                ci = table.classes.get(c)
+                if ci is None:
+                    continue
+                for n in _ast.walk(ci.node):
+                    if isinstance(n, (_ast.Assign, _ast.AugAssign)):
+                        for t in (n.targets if isinstance(n, _ast.Assign) else [n.target]):
+                            if isinstance(t, _ast.Attribute) and isinstance(t.value, _ast.Name) and t.value.id == 'self' \
+                                    and t.attr not in out and not t.attr.startswith('__'):
+                                try:
+                                    sh = table.infer_field(cname, t.attr)
+                                    if sh:
+                                        out[t.attr] = sym.parse_ty(sh)
+                                except Exception:
+                                    pass
         else:
             out.update(specs.shapes.get(cname, {}))
         return out
@@ -141,6 +159,23 @@ def concretize(ex, o, model, contract, cls):
     while todo:
         key, v, ty = todo.pop()
         expand(key, v, ty)
+    predicted = None
+    post = getattr(o, 'state', None)
+    if post is not None and ex.task_self is not None:
+        # what the verifier predicts the real code does from this entry state (only bounded unrolling = real executions)
+        try:
+            predicted = _predict(ex, o, post, model, all_fields(cls), objects, none_v, fn_names)
+        except Exception as e:  # pragma: no cover
+            predicted = {'error': f'{type(e).__name__}: {e}'}
+    class_attrs = {}
+    for (cn, an), cty in getattr(specs, 'class_attrs', {}).items():
+        try:
+            class_attrs[f'{cn}.{an}'] = value(heap.load(ex.class_obj(cn), f'{cn}.{an}', cty), cty)
+        except Exception:
+            pass
+    while todo:
+        key, v, ty = todo.pop()
+        expand(key, v, ty)
     used_specfns = {n: {'params': ps, 'text': tx} for n, (ps, tx) in specs.specfns.items()}
     invs = []
     if contract.invariants and ex.task_self is not None and cls in table.classes:
@@ -156,7 +191,60 @@ def concretize(ex, o, model, contract, cls):
         'invariants': invs, 'assume_invariants': contract.invariants is True,
         'specfns': used_specfns,
         'failed': {'obligation': o.name, 'kind': o.kind, 'clause': o.info.get('clause', ''), 'path': list(o.path)},
+        'predicted': predicted,
+        'class_attrs': class_attrs,
     }
+
+
+def _predict(ex, o, post, model, fields, objects, none_v, fn_names):
+    ph = post.heap
+    sv = ex.task_self.t
+    keys = {}
+    for k in objects:
+        keys[k.split(':')[0]] = k
+    out = {'fields': {}, 'trace': []}
+    for f, fty in fields.items():
+        if f.startswith('_g_'):
+            continue
+        try:
+            vv = ph.load(sv, f, fty)
+        except Exception:
+            continue
+        k = fty.kind
+        if k in ('int', 'real', 'bool'):
+            if fty.opt and vv.n is not None and z3.is_true(model.eval(vv.n, model_completion=True)):
+                out['fields'][f] = {'none': 1}
+            elif k == 'bool':
+                out['fields'][f] = {'bool': z3.is_true(model.eval(vv.t, model_completion=True))}
+            elif fty.ext and vv.inf is not None and z3.is_true(model.eval(vv.inf, model_completion=True)):
+                out['fields'][f] = {'inf': 1}
+            else:
+                out['fields'][f] = _num(model, vv.t)
+        elif k == 'ref':
+            v = model.eval(vv.t, model_completion=True)
+            if v.eq(none_v):
+                out['fields'][f] = {'none': 1}
+            elif fty.cls == 'list':
+                n = model.eval(ph.llen(vv.t), model_completion=True)
+                out['fields'][f] = {'list_len': n.as_long() if z3.is_int_value(n) else None}
+            elif fty.cls == 'dict':
+                n = model.eval(ph.dlen(vv.t), model_completion=True)
+                out['fields'][f] = {'dict_len': n.as_long() if z3.is_int_value(n) else None}
+            else:
+                out['fields'][f] = {'object': keys.get(str(v))}      # key of an entry object, None = some other object
+    # external calls the function makes itself, in order (ghost trace of this activation)
+    n0 = model.eval(z3.Int('h:$trlen'), model_completion=True)
+    n1 = ph.maps.get('$trlen')
+    if n1 is not None:
+        n1 = model.eval(n1, model_completion=True)
+        if z3.is_int_value(n0) and z3.is_int_value(n1):
+            kinds = ph.get('$tr.kind', I, I)
+            for i in range(n0.as_long(), min(n1.as_long(), n0.as_long() + 40)):
+                kv = model.eval(kinds[i], model_completion=True)
+                out['trace'].append(fn_names.get(kv.as_long(), 'callback') if z3.is_int_value(kv) and kv.as_long() != 0
+                                    else 'callback')
+    out['outcome'] = o.info.get('outcome')
+    return out
 
 
 def _arg_value(model, p, ty, value, ref_value, clo_value):
